@@ -228,12 +228,15 @@ impl InfixOpManager {
             return (-1, -1);
         }
         let config = ans.unwrap();
-        let l_bp = config.0;
+        // Binding powers are spread out (2p and 2p±1) so that the right binding
+        // power of one operator never collides with the left binding power of an
+        // operator registered with an adjacent precedence (p and p+1).
+        let l_bp = config.0.saturating_mul(2);
         let mut r_bp = 0;
         if config.2 == InfixOpAssociativity::LEFT {
-            r_bp = l_bp + 1;
+            r_bp = l_bp.saturating_add(1);
         } else if config.2 == InfixOpAssociativity::RIGHT {
-            r_bp = l_bp - 1;
+            r_bp = l_bp.saturating_sub(1);
         }
         (l_bp, r_bp)
     }
